@@ -823,7 +823,8 @@ def oracle_routing(inp, ptx, res, bpt_s):
 
 
 def contig_overlap(inp, f):
-    """number of contig bases of the input that Pretext piece `f` covers"""
+    """the largest number of bases of ONE input contig that Pretext piece `f` covers (a piece whose every contig overlap is shorter
+    than a texel is emptied by trim_large_overhangs: it carries no sequence to be unlocalised from)"""
     n = 0
     for s in inp:
         if s["name"] != f["name"]:
@@ -832,7 +833,7 @@ def contig_overlap(inp, f):
         for r in s["rows"]:
             ln = flen(r)
             if r["t"] == "F":
-                n += max(0, min(p + ln, f["end"]) - max(p + 1, f["start"]) + 1)
+                n = max(n, min(p + ln, f["end"]) - max(p + 1, f["start"]) + 1)
             p += ln
     return n
 
